@@ -12,14 +12,15 @@ from harness.common import ImplRaised, drv, impl, run_check
 
 PID = "C02"
 THEOREMS = ["rlencodeChunked_eq", "runStartsFrom_append", "fillIdx_spec", "indexPixels_spec", "indexPixels_chunked_spec",
-            "writePixels_concat", "create_valid", "create_zero_chunks", "countIndex_eq_csrIndex", "merge_valid", "unordered_valid"]
+            "writePixels_concat", "create_valid", "create_zero_chunks", "countIndex_eq_csrIndex", "merge_valid", "unordered_valid", "fillIdx_segs", "indexFromRle_of_segs", "indexFromRle_of_runs"]
 LEVELS = {"history": "top", "rlencode": "unit", "index": "unit", "bigindex": "top", "cli_load": "top"}
 DESCRIBE = {
     "history": "a seeded history of producing operations (create ordered/unordered, merge, coarsen, zoomify, scool, append to one file); "
                "EVERY collection of EVERY file written is dumped raw with h5py and judged by Lean `schemaViolations` "
                "(= conclusion of theorem create_valid)",
-    "rlencode": "cooler.util.rlencode(array, chunksize=c): contract `validRuns` on the real output and equality with Lean "
-                "`rlencodeChunked c` (= `rlencode` by theorem rlencodeChunked_eq)",
+    "rlencode": "cooler.util.rlencode(array, chunksize=c): contract `runsSpell` (non-empty constant runs from 0 spelling out the array; theorem indexFromRle_of_runs: the index builder is correct for ANY such run list) evaluated by Lean on "
+                "the real output; equality with the maximal encoding `rlencodeChunked c` (= `rlencode`, theorem rlencodeChunked_eq) is "
+                "logged, not gating",
     "index": "cooler.create._create.index_pixels on a dict-backed group vs Lean `indexPixels` (= `countIndex` by indexPixels_spec)",
     "bigindex": "end-to-end creation with > 10^6 pixels so that index_pixels crosses its literal 1 000 000-row block; raw offsets vs numpy bincount reference evaluated... by Lean on a sampled set of rows",
     "cli_load": "`cooler load` / `cooler cload pairs` outputs judged by the raw monitor",
@@ -44,18 +45,22 @@ def _rlencode(case):
     from cooler.util import rlencode
     xs = case["xs"]
     arr = np.array(xs, dtype=np.int64)
+    nonmax = 0
     for c in case["chunks"]:
         st, ln, vals = impl(rlencode, arr, c)
         runs = [[int(s), int(v)] for s, v in zip(st, vals)]
         m = drv().ask("C02.rle", xs=xs, c=(c if c is not None else max(len(xs), 1)), impl_runs=runs)
         assert m["chunked"] == m["plain"], "theorem rlencodeChunked_eq contradicted"
+        assert m["model_valid"] or not xs, "the maximal encoding must satisfy runsSpell"
         if not m["impl_valid"]:
             return {"mismatch": True, "chunksize": c, "impl_runs": runs, "model_runs": m["plain"],
-                    "note": "runs are not constant, ordered and covering (contract validRuns)"}
-        if runs != m["plain"] or [int(x) for x in ln] != m["lengths"]:
+                    "note": "runs are not non-empty constant runs from 0 that spell out the array (contract runsSpell)"}
+        if [int(x) for x in ln] != [b - a for a, b in zip([r[0] for r in runs], [r[0] for r in runs][1:] + [len(xs)])]:
             return {"mismatch": True, "chunksize": c, "impl_runs": runs, "impl_lengths": [int(x) for x in ln],
-                    "model_runs": m["plain"], "model_lengths": m["lengths"], "note": "differs from the maximal encoding"}
-    return None
+                    "note": "run lengths are not the differences of the run starts"}
+        if runs != m["plain"]:
+            nonmax += 1      # valid but not maximal: the index builder is provably insensitive; logged, not gating
+    return {"stats": {"non_maximal_encodings": nonmax}} if nonmax else None
 
 
 def _index(case):
